@@ -1020,7 +1020,7 @@ class Enum(Generic, PrimitiveType):
     )
 
   def to_json(self, **kwargs: typing.Any) -> typing.Dict[str, typing.Any]:
-    return self.to_json_dict(
+    json_dict = self.to_json_dict(
         fields=dict(
             default=(self.default, MISSING_VALUE),
             values=(self._values, None),
@@ -1029,6 +1029,11 @@ class Enum(Generic, PrimitiveType):
         exclude_default=True,
         **kwargs,
     )
+    # `default` is a required argument of `__init__`: keep it when it is
+    # MISSING_VALUE, so that the spec can be loaded back.
+    if 'default' not in json_dict:
+      json_dict['default'] = utils.to_json(MISSING_VALUE, **kwargs)
+    return json_dict
 
   @classmethod
   def with_type_args(cls, type_args: typing.Tuple[typing.Any, ...]) -> 'Enum':
